@@ -15,7 +15,7 @@ pub open spec fn pre<A: RequestBound + ?Sized, B: RequestBound>(tua: &TaskUnderA
 }
 /// C06 for floating non-preemptive FP: blocking bound b, remaining cost 0 (run-to-completion threshold = WCET)
 pub open spec fn spec_result<A: RequestBound + ?Sized, B: RequestBound>(tua: &TaskUnderAnalysis<A>, hp: Seq<B>, limit: int) -> Option<int> {
-    fpx_spec(rbf_fn(tua.rbf), hp_fn(hp), tua.blocking_bound.v(), 0, limit)
+    fl_spec(rbf_fn(tua.rbf), hp_fn(hp), tua.blocking_bound.v(), limit)
 }
 
 //@item src/fixed_priority/floating_nonpreemptive.rs :: struct TaskUnderAnalysis
@@ -61,7 +61,7 @@ where
     let L = fixed_point::search(&proc, limit, |L/*+*/: Duration/*-*/| /*+*/-> (r: Service)
         requires 1 <= L.v() <= limit.v(), pre(tua, interfering_tasks@, limit.v())
         ensures r.v() == w_bw(rbf_fn(tua.rbf), hp_fn(interfering_tasks@), tua.blocking_bound.v())(L.v())
-    /*-*/{
+    /*-*/{ /*@probe*/
 //@+
         proof {
             tua.rbf.rbf_props();
@@ -88,13 +88,13 @@ where
         requires A.v() < L.v() <= limit.v(), is_step(rbf_fn(tua.rbf), A.v()), pre(tua, interfering_tasks@, limit.v()),
                  dscan(w_bw(rbf_fn(tua.rbf), hp_fn(interfering_tasks@), tua.blocking_bound.v()), limit.v()) == Some(L.v())
         ensures res_view(r) == f_off(rbf_fn(tua.rbf), hp_fn(interfering_tasks@), tua.blocking_bound.v(), 0, limit.v(), A.v())
-    /*-*/{
+    /*-*/{ /*@probe*/
         // Define the RHS of the equation in theorem 31 of the aRTA paper,
         // where AF = A + F.
         let rhs = |AF: Duration| /*+*/-> (r: Service)
             requires 1 <= AF.v() <= limit.v(), A.v() < limit.v(), pre(tua, interfering_tasks@, limit.v())
             ensures r.v() == w_off(rbf_fn(tua.rbf), hp_fn(interfering_tasks@), tua.blocking_bound.v(), 0, A.v())(AF.v())
-        /*-*/{
+        /*-*/{ /*@probe*/
 //@+
             proof { tua.rbf.rbf_props(); lemma_sum_rbf_mono(interfering_tasks@, limit.v(), limit.v()); assert(tua.rbf.rbf(A.v() + 1) <= tua.rbf.rbf(limit.v() + 1)); assert(tua.rbf.rb_ok(A.v() + 1)); }
 //@-
